@@ -403,6 +403,10 @@ def wellformed_files(rng, count, simple=False, contexts=True, bad_bytes=0.0):
                                                             # so with style 'end' the NUL and the next form would join the name: excluded)
                 head = (None, b'', b'pl', [hv, b'x'])
             cat = [head] + cat
+        elif cat and rng.random() < 0.4:
+            # no header entry, but the first message mentions a charset: must NOT be taken as the file's charset
+            c, m, p, f = cat[0]
+            cat[0] = (c, m, p, [b'see charset=UTF-8 ' + f[0] + 'é'.encode('UTF-8')] + f[1:])
         lay = G.gen_layout(rng, simple=simple)
         if lay['minor'] == 1 and rng.random() < 0.3:
             lay['nsysdep'] = rng.choice([1, 2, 1 << 31])
